@@ -515,9 +515,9 @@ type c11Sizes struct {
 
 func c11SizesFor(t fw.Tier) c11Sizes {
 	if t == fw.Thorough {
-		return c11Sizes{batches: 64, genPatterns: 24000, genInputs: 150, crsInputs: 2000, e2eEvery: 40, e2eInputs: 24, maxMini: 40}
+		return c11Sizes{batches: 64, genPatterns: 16000, genInputs: 150, crsInputs: 2000, e2eEvery: 40, e2eInputs: 24, maxMini: 40}
 	}
-	return c11Sizes{batches: 16, genPatterns: 2500, genInputs: 60, crsInputs: 120, e2eEvery: 25, e2eInputs: 12, maxMini: 12}
+	return c11Sizes{batches: 16, genPatterns: 4000, genInputs: 60, crsInputs: 200, e2eEvery: 25, e2eInputs: 12, maxMini: 12}
 }
 
 func c11Run(w *fw.W, b fw.Batch) {
